@@ -5,6 +5,9 @@ rows = []
 tot = {'DETECTED': 0, 'UNDECIDED': 0, 'MISSED': 0}
 for d in sorted(glob.glob('/verif/seeded/C*-*'), key=lambda p: (p.split('/')[-1].split('-')[0], int(p.split('-')[-1]))):
     m = json.load(open(d + '/meta.json'))
+    if m.get('obsolete'):
+        rows.append(f"| {m['id']} | — | {str(m.get('summary',''))[:120].replace('|','/')} | obsolete | {m['obsolete'][:200].replace('|','/')} |")
+        continue
     ch = {p: c for p, c in m.get('checks', {}).items() if isinstance(c, dict)}
     verdicts = [c.get('verdict') for c in ch.values()]
     overall = 'DETECTED' if 'DETECTED' in verdicts else ('UNDECIDED' if 'UNDECIDED' in verdicts else 'MISSED')
@@ -20,7 +23,7 @@ for d in sorted(glob.glob('/verif/seeded/C*-*'), key=lambda p: (p.split('/')[-1]
     summ = re.sub(r'\s+', ' ', str(m.get('summary', '')))[:170].replace('|', '/')
     rows.append(f"| {m['id']} | {', '.join(f.replace('src/', '') for f in files)} | {summ} | **{overall}**{' by ' + det if det else ''}{' (undecided: ' + und + ')' if und and overall != 'UNDECIDED' else ''} | {(ob or why).replace('|', '/')[:170]} |")
 table = ('| id | files | change (author\'s summary, shortened) | verdict | failed obligation / why undecided |\n|---|---|---|---|---|\n' + '\n'.join(rows)
-         + f"\n\nTotals over {sum(tot.values())} confirmed changes: {tot['DETECTED']} detected (a named obligation fails, exit 1), "
+         + f"\n\nChanges marked obsolete no longer apply because the defect they varied was repaired in /repo. Totals over {sum(tot.values())} confirmed, still applicable changes: {tot['DETECTED']} detected (a named obligation fails, exit 1), "
            f"{tot['UNDECIDED']} undecided (exit 2: the change restructures the code so that proof anchors / extraction no longer apply, "
            f"or uses a construct the verifier does not take), {tot['MISSED']} missed (exit 0).\n")
 p = '/verif/DESIGN.md'
